@@ -98,7 +98,12 @@ func (gw *exclusiveGateway) run(ctx context.Context, sender tracing.ISenderHandl
 				if response, ok := gw.probing[m.flowId]; ok {
 					if response == nil {
 						// Reschedule, there's no next action yet
-						go func() { gw.mch <- m }()
+						go func() {
+							select {
+							case gw.mch <- m:
+							case <-ctx.Done():
+							}
+						}()
 						continue
 					}
 					delete(gw.probing, m.flowId)
@@ -154,9 +159,12 @@ func (gw *exclusiveGateway) run(ctx context.Context, sender tracing.ISenderHandl
 					m.response <- probeAction{
 						sequenceFlows: gw.nonDefaultSequenceFlows,
 						probeReport: func(indices []int) {
-							gw.mch <- gatewayProbingReport{
+							select {
+							case gw.mch <- gatewayProbingReport{
 								result: indices,
 								flowId: m.flow.Id(),
+							}:
+							case <-ctx.Done():
 							}
 						},
 					}
@@ -176,7 +184,12 @@ func (gw *exclusiveGateway) NextAction(ctx context.Context, flow Flow) chan IAct
 	})
 
 	response := make(chan IAction, 1)
-	gw.mch <- nextActionMessage{response: response, flow: flow}
+	// the run loop exits when ctx is done: a flow arriving then must not wait
+	// for room in an inbox nobody drains any more
+	select {
+	case gw.mch <- nextActionMessage{response: response, flow: flow}:
+	case <-ctx.Done():
+	}
 	return response
 }
 
